@@ -64,10 +64,11 @@ def check_run(case, res, shift, tag):
             if hidden_run:
                 hidden_between = True
             gap = spec['t_us'] - prev_shown_t
-            if gap == 1_000_000:
+            if gap == 1_000_000 and not case.get('whole_seconds'):
                 res.count('exactly-one-second-gaps-skipped')
             else:
                 want = gap > 1_000_000
+                if gap == 1_000_000: res.count('exactly-one-second-gaps-decided')
                 classes.add('gap>1s' if want else 'gap<=1s')
                 if bool(sl) != want:
                     res.bad(('separator-missing' if want else 'separator-spurious') + tag,
@@ -108,7 +109,7 @@ def check_run(case, res, shift, tag):
             pos += 1
             if prev is not None:
                 gap = specs[i]['t_us'] - specs[prev]['t_us']
-                if gap == 1_000_000:
+                if gap == 1_000_000 and not case.get('whole_seconds'):
                     res.count('exactly-one-second-gaps-skipped')
                 else:
                     want = gap > 1_000_000
@@ -160,10 +161,21 @@ class Shifts(Stage):
             for m in specs[1:]:
                 if d.chance(0.4):
                     m['t_us'] = max(0, base - d.choice([1, 999, 1_000_001, 2_500_000, d.int(0, 5_000_000)]) + (m['t_us'] - base) // 7)
+        whole = order == 'chronological' and d.chance(0.1)
+        if whole:
+            # every time a whole number of seconds: all the tool's floating-point arithmetic is exact then, so a gap of exactly
+            # one second is decidable - it does not *exceed* a second, no separator
+            t = d.choice([0, 1_000_000, 5_000_000])
+            for k, m in enumerate(specs):
+                if k:
+                    t += d.choice([0, 1_000_000, 1_000_000, 2_000_000])
+                m['t_us'] = t
         last = max(m['t_us'] for m in specs)
         room = histgen.T_MAX - last
         shift = d.choice([0, 1, 999, 1000, 1_000_000, 3_999_999_999, room]) if d.chance(0.6) else d.int(0, room)
         shift = max(0, min(shift, room))
+        if whole:
+            shift = d.choice([0, 1_000_000, 3_000_000_000])
         flt = None
         if d.chance(0.85):
             g = rm.Gen(d, rm.vocab(specs), 1)
@@ -181,7 +193,7 @@ class Shifts(Stage):
                                     if d.chance(0.7) else scripts.gen_matcher_text(d, g2)))
         # a breakpoint matcher (-b) prints `Stopped at` notes; it must not influence times or separators
         brk = d.choice(['wl_display', 'wl_registry', '.delete_id', '.bind', '*', '.new', 'wl_callback', '* ! wl_display', '.' + specs[d.int(0, len(specs) - 1)]['name']]) if d.chance(0.35) else None
-        return dict(specs=specs, dialect=d.choice(['new', 'old', 'old-comma']), shift=shift, filter=flt, lists=lists, order=order, brk=brk)
+        return dict(specs=specs, dialect=d.choice(['new', 'old', 'old-comma']), shift=shift, filter=flt, lists=lists, order=order, brk=brk, whole_seconds=whole)
 
     def execute(self, case):
         res = Result()
@@ -206,7 +218,114 @@ class Shifts(Stage):
         if case['lists']: res.label('with-listing')
         if case.get('brk'): res.label('with-breakpoint-matcher')
         res.label(case.get('order', 'chronological'))
+        if case.get('whole_seconds'): res.label('whole-second-times')
         res.sample = dict(dialect=case['dialect'], shift=case['shift'], filter=case.get('filter'), lines=render_lines(case['specs'], case['dialect'])[:6], lists=case['lists'])
+        return res
+
+
+class SinkSessions(Stage):
+    """the connection-id interface (what GDB mode drives): connections open and close while time goes on - also when for a while
+    no connection is open at all; every shown time is still the message's time minus the first message's, and separators sit
+    between consecutively shown messages iff their exact gap exceeds one second"""
+    name = 'sink-sessions'
+
+    def examples(self, tier):
+        return 200 if tier == 'quick' else 14 * 1500
+
+    def gen(self, d, tier):
+        ids = ['x', 'y']
+        ops, is_open = [], []
+        t = d.choice([0, 1000, 5_000_000, 123_456_789])
+        for _ in range(d.int(4, 30)):
+            t += d.choice([0, 1000, 250_000, 999_999, 1_000_001, 2_500_000]) if d.chance(0.8) else d.int(0, 3_000_000)
+            k = d.weighted([(3, 'open'), (3, 'close'), (10, 'message')])
+            if k == 'message' and is_open:
+                ops.append(['message', d.choice(is_open), d.choice(['sync', 'done', 'get_registry', 'delete_id']), t])
+            elif k == 'close' and is_open:
+                c = d.choice(is_open)
+                is_open.remove(c)
+                ops.append(['close', c, None, t])
+            else:
+                c = d.choice(ids)
+                if c not in is_open:
+                    is_open.append(c)
+                ops.append(['open', c, d.choice([None, True, False]), t])
+        return dict(ops=ops, dialect=d.choice(['new', 'old']), list_at_end=d.chance(0.5))
+
+    def execute(self, case):
+        from core import ConnectionManager, matcher
+        from core.output import Output, stream
+        from frontends.tui import Controller
+        from backends.libwayland_debug_output import parse
+        env.reset_globals()
+        res = Result()
+        res.evals = 0
+        out = stream.String()
+        cm = ConnectionManager()
+        ctl = Controller(Output(False, True, out, stream.String()), cm, matcher.always, matcher.never)
+        st = {}
+        first_t = prev_t = None
+        times = []
+        gap_open = False
+        for op in case['ops']:
+            kind, cid, arg, t = op
+            n0 = len(out.buffer)
+            if kind == 'open':
+                st[cid] = dict(next=2, cbs=[])
+                cm.open_connection(t / 1e6, cid, arg)
+                continue
+            if kind == 'close':
+                cm.close_connection(t / 1e6, cid)
+                st.pop(cid, None)
+                if not st:
+                    gap_open = True
+                continue
+            mc = st[cid]
+            ts = wire.timestamp(t, case['dialect']).rstrip()
+            sep = '@' if case['dialect'] == 'old' else '#'
+            if arg == 'sync' or (arg in ('done', 'delete_id') and not mc['cbs']):
+                line = '%s  -> wl_display%s1.sync(new id wl_callback%s%d)' % (ts, sep, sep, mc['next'])
+                mc['cbs'].append(mc['next']); mc['next'] += 1
+            elif arg == 'done':
+                line = '%s wl_callback%s%d.done(7)' % (ts, sep, mc['cbs'][-1])
+            elif arg == 'delete_id':
+                line = '%s wl_display%s1.delete_id(%d)' % (ts, sep, mc['cbs'].pop())
+            else:
+                line = '%s  -> wl_display%s1.get_registry(new id wl_registry%s%d)' % (ts, sep, sep, mc['next'])
+                mc['next'] += 1
+            _, msg = parse.message(line)
+            cm.message(cid, msg)
+            res.evals += 1
+            if first_t is None:
+                first_t = t
+            lines = out.buffer[n0:].split('\n')[:-1]
+            ml = [l for l in lines if session.MSG_LINE.match(l)]
+            sl = [l for l in lines if session.SEP_LINE.match(l)]
+            if len(ml) != 1:
+                res.bad('sink:message-lines!=1', '%r printed %r' % (line, lines))
+                break
+            shown = units(session.MSG_LINE.match(ml[0]).group(1))
+            exact = t - first_t
+            if abs(shown * 100 - exact) > 101:
+                res.bad('sink:time-column' + (':after-all-connections-closed' if gap_open else ''), '%r shown at %s, exact %d us after the first message' % (
+                    line, session.MSG_LINE.match(ml[0]).group(1), exact))
+                break
+            if prev_t is not None and t - prev_t != 1_000_000:
+                want = t - prev_t > 1_000_000
+                if bool(sl) != want:
+                    res.bad('sink:separator-' + ('missing' if want else 'spurious'), 'before %r: gap %d us, separators %r' % (line, t - prev_t, sl))
+                    break
+            prev_t = t
+            times.append(t)
+        if case.get('list_at_end') and times and not res.discs:
+            n0 = len(out.buffer)
+            ctl.process_command('list')
+            got = [units(session.MSG_LINE.match(l).group(1)) for l in out.buffer[n0:].split('\n') if session.MSG_LINE.match(l)]
+            if len(got) != len(times) or any(abs(g * 100 - (t - first_t)) > 101 for g, t in zip(got, times)):
+                res.bad('sink:listing-times', 'listed times %r, exact %r' % (got[:8], [(t - first_t) for t in times[:8]]))
+        res.nontrivial = gap_open and len(times) >= 3
+        if gap_open: res.label('all-connections-closed-for-a-while')
+        res.sample = case['ops'][:12]
         return res
 
 
@@ -221,7 +340,7 @@ class C16(Prop):
     assumptions = ['a gap of exactly 1000000 us between shown neighbours is undetermined in binary floating point: skipped and counted',
                    'timestamps stay below 2^32 us (no wrap-around of libwayland\'s clock)',
                    'listings are only issued after the stream (a listing between two live messages makes "one after the other" ambiguous)']
-    stages = [Shifts()]
+    stages = [Shifts(), SinkSessions()]
 
 
 PROP = C16()
